@@ -92,6 +92,16 @@ def run_case(case):
     spec = case["tg"]
     theta = case["theta"]
     tg = mk_tg(spec)
+    if case.get("late_entry"):
+        # the first tier grows after it was added (tier.insertEntry does not tell the textgrid): the textgrid's stored span
+        # is stale, the data now ends later - an override that cuts into the new entry still cuts into the data
+        import copy
+        hi0 = spec["maxT"]
+        late = [hi0 + 0.5, hi0 + 1.0, "late"]
+        with quiet():
+            tg.tiers[0].insertEntry(tuple(late), "error", "silence")
+        spec = copy.deepcopy(spec)
+        spec["tiers"][0]["entries"].append(late)
     kw = {}
     if case["min_override"] is not None:
         kw["minTimestamp"] = case["min_override"]
@@ -230,6 +240,9 @@ def cases(draw):
         case["max_override"] = math.nextafter(max(times), -math.inf)  # one unit in the last place inside the data: still cuts into it
     elif r == 9 and times:
         case["min_override"] = math.nextafter(min(times), math.inf)
+    elif r == 7:
+        case["late_entry"] = True
+        case["max_override"] = span_hi + 0.75
     elif r == 0:
         case["max_override"] = span_hi + 1.0
     elif r == 1:
